@@ -243,3 +243,167 @@ def _node_of_call(cfg, call):
             if x is call:
                 return n
     return None
+
+
+# ----------------------------------------------------------------------
+# frozen table of raising primitives relevant to client-controlled data
+# (DESIGN.md A.4).  Each entry: the exception class and the guard idiom that
+# makes the site safe.
+
+def _dominating_guard(cfg, node, pred, polarity=None):
+    for (t, pol, b) in cfg.guards(node):
+        if (polarity is None or pol == polarity) and pred(t, pol):
+            return True
+    return False
+
+
+def _codec(call, program, func, idx):
+    if len(call.args) > idx:
+        try:
+            v = program.fold(call.args[idx], func.module)
+        except NotConst:
+            return None
+        return v if isinstance(v, str) else None
+    for kw in call.keywords:
+        if kw.arg in ("encoding",):
+            try:
+                return program.fold(kw.value, func.module)
+            except NotConst:
+                return None
+    return "utf-8"
+
+
+def _norm_codec(c):
+    return (c or "").lower().replace("-", "").replace("_", "")
+
+
+def primitive_sites(program, func, is_match_var=None):
+    """[(cfg node, exc class, description)] for statements of `func` that may
+    raise on client-controlled data and are NOT protected by the local guard
+    idiom. try/except protection is handled by the caller through routing."""
+    g = cfg_of(func)
+    out = []
+    reach = g.reachable_nodes()
+    raise_arity = _raise_arity(program)
+    # names assigned from regex matches
+    match_vars = set()
+    for n in ast.walk(func.node):
+        if isinstance(n, ast.Assign) and isinstance(n.value, ast.Call) and isinstance(n.value.func, ast.Attribute) \
+                and n.value.func.attr in ("match", "fullmatch", "search"):
+            for t in n.targets:
+                if isinstance(t, ast.Name):
+                    match_vars.add(t.id)
+    for n in g.nodes:
+        if n.id not in reach or n.ast is None or n.kind not in ("stmt", "test", "iter"):
+            continue
+        roots = [n.ast] if n.kind != "iter" else [n.ast.target]
+        if isinstance(n.ast, (ast.FunctionDef, ast.AsyncFunctionDef, ast.ClassDef)):
+            continue
+        for root in roots:
+            for e in ast.walk(root):
+                if isinstance(e, ast.Lambda):
+                    continue
+                if isinstance(e, ast.Call):
+                    d = dotted(e.func) or ""
+                    if d == "int" and e.args:
+                        base = 10
+                        if len(e.args) > 1 and isinstance(e.args[1], ast.Constant):
+                            base = e.args[1].value
+                        out.append((n, "ValueError", "int(%s, base %s)" % (norm(e.args[0])[:30], base), {"kind": "int", "base": base, "arg": e.args[0], "call": e}))
+                    elif d.endswith("urlsplit") or d.endswith("urlparse"):
+                        out.append((n, "ValueError", "%s()" % d, {"kind": "urlsplit"}))
+                    elif isinstance(e.func, ast.Attribute) and e.func.attr == "decode":
+                        c = _norm_codec(_codec(e, program, func, 0))
+                        if c not in ("latin1", "iso88591"):
+                            out.append((n, "UnicodeDecodeError", "%s with codec %s" % (norm(e)[:40], c or "?"), {"kind": "decode"}))
+                    elif isinstance(e.func, ast.Attribute) and e.func.attr == "encode":
+                        c = _norm_codec(_codec(e, program, func, 0))
+                        if c not in ("latin1", "iso88591", "utf8"):
+                            out.append((n, "UnicodeEncodeError", "%s with codec %s" % (norm(e)[:40], c or "?"), {"kind": "encode"}))
+                    elif d == "str" and len(e.args) >= 2:
+                        c = _norm_codec(_codec(e, program, func, 1))
+                        if c not in ("latin1", "iso88591"):
+                            out.append((n, "UnicodeDecodeError", "%s with codec %s" % (norm(e)[:40], c or "?"), {"kind": "decode"}))
+                    elif isinstance(e.func, ast.Attribute) and e.func.attr in ("group", "groups", "end", "start", "span") \
+                            and isinstance(e.func.value, ast.Name) and e.func.value.id in match_vars:
+                        v = e.func.value.id
+                        if not _not_none_guard(g, n, v):
+                            out.append((n, "AttributeError", "%s on a possibly-None match" % norm(e)[:40], {"kind": "match"}))
+                elif isinstance(e, ast.Subscript) and isinstance(e.ctx, ast.Load) and not isinstance(e.slice, ast.Slice):
+                    base = e.value
+                    bd = dotted(base)
+                    if isinstance(base, ast.Name) and base.id in match_vars:
+                        if not _not_none_guard(g, n, base.id):
+                            out.append((n, "TypeError", "%s on a possibly-None match" % norm(e)[:40], {"kind": "match"}))
+                        continue
+                    if isinstance(base, ast.Attribute) and base.attr == "args":
+                        # e.args[0]: safe iff every raise of the caught classes passes >= 1 argument
+                        out.append((n, "IndexError", norm(e), {"kind": "exc-args", "expr": e}))
+                        continue
+                    idx = e.slice
+                    const_idx = isinstance(idx, ast.Constant) and isinstance(idx.value, int) or \
+                        (isinstance(idx, ast.UnaryOp) and isinstance(idx.op, ast.USub) and isinstance(idx.operand, ast.Constant))
+                    if const_idx and bd is not None:
+                        if _truthy_guard(g, n, base):
+                            continue
+                        out.append((n, "IndexError", "%s on a possibly empty sequence" % norm(e)[:40], {"kind": "index", "expr": e}))
+                    elif isinstance(idx, ast.Constant) and isinstance(idx.value, str):
+                        out.append((n, "KeyError", norm(e)[:40], {"kind": "key", "expr": e}))
+            # tuple unpack of split(sep, 1)
+            if n.kind == "stmt" and isinstance(n.ast, ast.Assign) and isinstance(n.ast.targets[0], (ast.Tuple, ast.List)) \
+                    and isinstance(n.ast.value, ast.Call) and isinstance(n.ast.value.func, ast.Attribute) \
+                    and n.ast.value.func.attr in ("split", "rsplit") and len(n.ast.value.args) == 2:
+                c = n.ast.value
+                sep, recv = c.args[0], c.func.value
+
+                def has_sep(t, pol, sep=sep, recv=recv):
+                    return pol and isinstance(t, ast.Compare) and isinstance(t.ops[0], ast.In) and norm(t.left) == norm(sep) and norm(t.comparators[0]) == norm(recv)
+                if not _dominating_guard(g, n, has_sep):
+                    out.append((n, "ValueError", "unpacking %s without a dominating `%s in %s`" % (norm(c)[:40], norm(sep), norm(recv)), {"kind": "unpack"}))
+    return out
+
+
+def _not_none_guard(g, node, var):
+    for (t, pol, b) in g.guards(node):
+        if isinstance(t, ast.Name) and t.id == var and pol:
+            return True
+        if isinstance(t, ast.Compare) and isinstance(t.left, ast.Name) and t.left.id == var and isinstance(t.comparators[0], ast.Constant) and t.comparators[0].value is None:
+            if isinstance(t.ops[0], ast.IsNot) and pol:
+                return True
+            if isinstance(t.ops[0], ast.Is) and not pol:
+                return True
+    return False
+
+
+def _truthy_guard(g, node, base):
+    txt = norm(base)
+    for (t, pol, b) in g.guards(node):
+        if pol and norm(t) == txt:
+            return True
+        if pol and isinstance(t, ast.Compare) and isinstance(t.ops[0], ast.In) and norm(t.comparators[0]) == txt:
+            return True
+        if pol and isinstance(t, ast.Call) and dotted(t.func) == "len" and t.args and norm(t.args[0]) == txt:
+            return True
+        if pol and isinstance(t, ast.Compare) and isinstance(t.left, ast.Call) and dotted(t.left.func) == "len" and t.left.args and norm(t.left.args[0]) == txt \
+                and isinstance(t.ops[0], (ast.Gt, ast.GtE, ast.NotEq, ast.Eq)):
+            return True
+    return False
+
+
+def _raise_arity(program):
+    """{class name: min number of positional args over all raise sites}"""
+    out = {}
+    for f in program.functions.values():
+        for n in ast.walk(f.node):
+            if isinstance(n, ast.Raise) and isinstance(n.exc, ast.Call):
+                nm = (dotted(n.exc.func) or "").split(".")[-1]
+                k = len(n.exc.args)
+                out[nm] = min(out.get(nm, 99), k)
+            elif isinstance(n, ast.Raise) and n.exc is not None and isinstance(n.exc, (ast.Name, ast.Attribute)):
+                nm = (dotted(n.exc) or "").split(".")[-1]
+                out[nm] = 0
+    return out
+
+
+def raise_arity(program):
+    return _raise_arity(program)
